@@ -1,0 +1,54 @@
+//go:build verif
+
+package processors
+
+// ---- Qualifier / Primary narrowing (C08, C10) --------------------------------------------------------------------
+// Vocabulary over one injection point n and one candidate m:
+//   HasQualArg(n)   the point carries a qualifier argument
+//   QualMatch(n, m) m declares a qualifier (WireQualifier) and it is one of the requested ones
+//   InQ(n, m)       m is an admissible candidate: non-nil and, if the point is qualified, matching
+//   Primary(m)      m's type implements WirePrimary;  Named(m): m has a custom name (alias)
+//   Single(n)       the point is single-valued (not a slice or array field)
+
+//@ spec func HasQualArg(n *component_definition.Property) bool = ArgIn(n.args, component_definition.ArgQualifier)
+//@ spec func QualMatch(n *component_definition.Property, m *component_definition.Meta) bool = implements(m.Raw, definition.WireQualifier) && ArgHas1(n.args, component_definition.ArgQualifier, asType(m.Raw, definition.WireQualifier).Qualifier())
+//@ spec func InQ(n *component_definition.Property, m *component_definition.Meta) bool = m != nil && implies(HasQualArg(n), QualMatch(n, m))
+//@ spec func Primary(m *component_definition.Meta) bool = TypeImplements(m.Type, primaryInterface)
+//@ spec func Named(m *component_definition.Meta) bool = m.alias != ""
+//@ spec func Single(n *component_definition.Property) bool = n.Type.Kind() != 23 && n.Type.Kind() != 17
+
+//@ func filterDependencies$1
+//@ property C08
+//@ pure
+//@ assigns nothing
+//@ ensures [non-nil] result == (m != nil)
+
+//@ func filterDependencies$2
+//@ property C08
+//@ pure
+//@ requires [candidate-non-nil] m != nil && n != nil
+//@ assigns nothing
+//@ ensures [qualifier-match] result == QualMatch(n, m)
+
+//@ func filterDependencies
+//@ property C08 C10
+//@ ghost-tags metas
+//@ requires [point-wellformed] n != nil && n.Field != nil && n.Field.Base != nil && n.Type != nil
+//@ requires [candidates-wellformed] forall(k, int, implies(0 <= k && k < len(metas) && metas[k] != nil, metas[k].Base != nil && metas[k].Type != nil), metas[k])
+//@ assigns FilterPos, FilterSrc
+//@ ensures [nil-free] implies(result1 == nil, forall(i, int, implies(0 <= i && i < len(result0), result0[i] != nil), result0[i]))
+//@ ensures [from-candidates] implies(result1 == nil, forall(i, int, implies(0 <= i && i < len(result0), exists(k, int, 0 <= k && k < len(metas) && metas[k] == result0[i])), result0[i]))
+//@ ensures [qualifier-only] implies(result1 == nil, forall(i, int, implies(0 <= i && i < len(result0), InQ(n, result0[i])), result0[i]))
+//@ ensures [none-is-error] (result1 != nil) == forall(k, int, implies(0 <= k && k < len(metas), !InQ(n, metas[k])), metas[k])
+//@ ensures [error-means-nil] implies(result1 != nil, len(result0) == 0)
+//@ ensures [slice-keeps-all] implies(result1 == nil && !Single(n), forall(k, int, implies(0 <= k && k < len(metas) && InQ(n, metas[k]), exists(i, int, 0 <= i && i < len(result0) && result0[i] == metas[k])), metas[k]))
+//@ ensures [slice-each-once-in-order] implies(result1 == nil && !Single(n), forall(i, int, forall(j, int, implies(0 <= i && i < j && j < len(result0), tag(result0, i) < tag(result0, j)), tag(result0, j)), tag(result0, i)) && forall(i, int, implies(0 <= i && i < len(result0), 0 <= tag(result0, i) && tag(result0, i) < len(metas) && result0[i] == metas[tag(result0, i)]), tag(result0, i)))
+//@ ensures [single-one] implies(result1 == nil && Single(n), len(result0) == 1)
+//@ ensures [unique-primary-wins] implies(result1 == nil && Single(n), forall(k, int, implies(0 <= k && k < len(metas) && InQ(n, metas[k]) && Primary(metas[k]) && forall(j, int, implies(0 <= j && j < len(metas) && InQ(n, metas[j]) && Primary(metas[j]), metas[j] == metas[k]), metas[j]), result0[0] == metas[k]), metas[k]))
+//@ ensures [unique-unnamed-wins] implies(result1 == nil && Single(n) && forall(j, int, implies(0 <= j && j < len(metas) && InQ(n, metas[j]), !Primary(metas[j])), metas[j]), forall(k, int, implies(0 <= k && k < len(metas) && InQ(n, metas[k]) && !Named(metas[k]) && forall(j, int, implies(0 <= j && j < len(metas) && InQ(n, metas[j]) && !Named(metas[j]), metas[j] == metas[k]), metas[j]), result0[0] == metas[k]), metas[k]))
+//@ ensures [tie-stays-in-best-class] implies(result1 == nil && Single(n), implies(exists(j, int, 0 <= j && j < len(metas) && InQ(n, metas[j]) && Primary(metas[j])), Primary(result0[0])) && implies(!exists(j, int, 0 <= j && j < len(metas) && InQ(n, metas[j]) && Primary(metas[j])) && exists(j, int, 0 <= j && j < len(metas) && InQ(n, metas[j]) && !Named(metas[j])), !Named(result0[0])))
+//@ loop 1 invariant [scan-bounds] 0 <= _done && _done <= len(result) && len(result) > 1
+//@ loop 1 invariant [no-primary-so-far] forall(i, int, implies(0 <= i && i < _done, !Primary(result[i])), result[i])
+//@ loop 1 invariant [candidate-from-result] exists(i, int, 0 <= i && i < len(result) && result[i] == candidate && (i < _done || i == 0))
+//@ loop 1 invariant [candidate-last-unnamed] implies(exists(i, int, 0 <= i && i < _done && !Named(result[i])), !Named(candidate) && forall(i, int, implies(0 <= i && i < _done && !Named(result[i]) && forall(j, int, implies(0 <= j && j < _done && !Named(result[j]), result[j] == result[i]), result[j]), candidate == result[i]), result[i]))
+//@ loop 1 invariant [candidate-first-if-all-named] implies(forall(i, int, implies(0 <= i && i < _done, Named(result[i])), result[i]), candidate == result[0])
